@@ -144,6 +144,9 @@ func checkC07(c *chk.Ctx) {
 		}
 		if ac.skipped != "" {
 			nSkipped++
+			if os.Getenv("VERIF_DEBUG") != "" {
+				fmt.Fprintln(os.Stderr, "skipped", ac.ex.Fv, ac.skipped)
+			}
 			continue
 		}
 		specs = append(specs, work.PkgSpec{ImportPath: "scratch/" + ac.pkg, Server: true})
@@ -155,9 +158,9 @@ func checkC07(c *chk.Ctx) {
 	if err != nil {
 		c.Broken("driver does not build: %s", firstN(bout, 1500))
 	}
-	modes := []int{0, 1, 2}
+	modes := []int{0, 1, 2, jsonv.ModeSparse}
 	if c.Thorough() {
-		modes = []int{0, 1, 2, 3, 4, 5, 6, 7, 8}
+		modes = []int{0, 1, 2, 3, 4, 5, 6, 7, 8, jsonv.ModeSparse}
 	}
 	type vkey struct{ ci, mode int }
 	vts := map[vkey]jsonv.M{}
